@@ -40,10 +40,11 @@
 #define U2 ""
 #endif
 
-/* instantiate a template: '?' -> symbolic byte */
+/* instantiate a template: '?' -> symbolic byte 1..255, '*' -> symbolic byte 0..255 (a NUL ends the token early, so
+ * a run of '*' stands for every string up to that length) */
 static void inst(char* dst, const char* tpl, unsigned n)
 {
-    for (unsigned i = 0; i < n; ++i) dst[i] = tpl[i] == '?' ? (char)in_ch() : tpl[i];
+    for (unsigned i = 0; i < n; ++i) dst[i] = tpl[i] == '?' ? (char)in_ch() : tpl[i] == '*' ? (char)in_u8() : tpl[i];
     dst[n] = 0;
 }
 #ifdef NATIVE
